@@ -65,29 +65,44 @@ theorem cli_files_distinct (aws : Bool) (o : CliOptions) (plan : CliPlan)
       have : ∃ e, cliRun aws o = .error e := (cli_error_iff aws o).2 (Or.inr (Or.inl hc))
       obtain ⟨e, he⟩ := this
       rw [he] at h; cases h
-  unfold namesCollide at hn
-  simp only [Bool.or_eq_false_iff, beq_eq_false_iff_ne, ne_eq] at hn
-  obtain ⟨⟨h1, h2⟩, h3⟩ := hn
-  have key_pem : keyPemSuffix = keySuffix ++ pemSuffix := rfl
   rw [hf]
+  unfold namesCollide at hn
+  simp only [cliOutputs, List.map_cons, List.map_nil, decide_eq_false_iff_not, Decidable.not_not,
+    List.nodup_cons, List.mem_cons, List.not_mem_nil, or_false, not_or, List.nodup_nil, and_true,
+    not_false_eq_true] at hn
+  obtain ⟨⟨h1, h2, h3⟩, ⟨h4, h5⟩, h6⟩ := hn
   simp only [List.nodup_cons, List.mem_cons, List.not_mem_nil, or_false, not_or, List.nodup_nil,
     and_true, not_false_eq_true]
-  refine ⟨⟨?_, ?_, ?_⟩, ⟨?_, ?_⟩, ?_⟩
-  · -- cert.key.pem ≠ cert.pem
-    intro e; rw [key_pem, ← List.append_assoc] at e
-    have := List.append_cancel_right e
-    have hl := congrArg List.length this
-    simp [keySuffix] at hl
-  · intro e; exact h1 (List.append_cancel_right e)
-  · intro e; rw [key_pem, ← List.append_assoc] at e
-    exact h3 (List.append_cancel_right e).symm
-  · intro e; rw [key_pem, ← List.append_assoc] at e
-    exact h2 (List.append_cancel_right e)
-  · intro e; exact h1 (List.append_cancel_right e)
-  · intro e; rw [key_pem, ← List.append_assoc] at e
-    have := List.append_cancel_right e
-    have hl := congrArg List.length this
-    simp [keySuffix] at hl
+  exact ⟨⟨fun e => h1 (congrArg lexicalPath e), fun e => h2 (congrArg lexicalPath e),
+    fun e => h3 (congrArg lexicalPath e)⟩, ⟨fun e => h4 (congrArg lexicalPath e),
+    fun e => h5 (congrArg lexicalPath e)⟩, fun e => h6 (congrArg lexicalPath e)⟩
+
+/-- ... and not only as names: two of the four that differ as strings but are one file (`./x` and
+    `x`, `a/../x` and `x`, `a//b` and `a/b`) are refused as well — what is compared is the lexical
+    form of each output's path -/
+theorem cli_files_distinct_as_paths (aws : Bool) (o : CliOptions) (plan : CliPlan)
+    (h : cliRun aws o = .ok plan) : (plan.files.map lexicalPath).Nodup := by
+  have hf := cli_ok_writes_four aws o plan h
+  have hn : namesCollide o.certFileName o.caFileName = false := by
+    cases hc : namesCollide o.certFileName o.caFileName with
+    | false => rfl
+    | true =>
+      have : ∃ e, cliRun aws o = .error e := (cli_error_iff aws o).2 (Or.inr (Or.inl hc))
+      obtain ⟨e, he⟩ := this
+      rw [he] at h; cases h
+  rw [hf]
+  unfold namesCollide at hn
+  simp only [cliOutputs, List.map_cons, List.map_nil, decide_eq_false_iff_not, Decidable.not_not,
+    List.nodup_cons, List.mem_cons, List.not_mem_nil, or_false, not_or, List.nodup_nil, and_true,
+    not_false_eq_true] at hn
+  obtain ⟨⟨h1, h2, h3⟩, ⟨h4, h5⟩, h6⟩ := hn
+  simp only [List.map_cons, List.map_nil, List.nodup_cons, List.mem_cons, List.not_mem_nil,
+    or_false, not_or, List.nodup_nil, and_true, not_false_eq_true]
+  exact ⟨⟨h1, h2, h3⟩, ⟨h4, h5⟩, h6⟩
+
+example : namesCollide [46, 47, 120, 46, 107, 101, 121] [120] = true := by decide   -- "./x.key" and "x"
+example : namesCollide [97, 47, 46, 46, 47, 120] [120] = true := by decide          -- "a/../x" and "x"
+example : namesCollide [120] [121] = false := by decide
 
 /-- the end-entity certificate carries exactly the given names in order — IP literals as IP
     addresses, everything else as DNS names —, the common name, the requested purposes, and
